@@ -467,18 +467,34 @@ theorem inv_execInstr (i : Instr) {m : M} (h : m.Inv) : (execInstr i m).Inv := b
 
 /-! ### one step of `execute_do` -/
 
+theorem inv_unwindErr : ∀ (fuel : Nat) (c : Ctx) (tr : Val), c.Inv → (unwindErr fuel c tr).1.Inv := by
+  intro fuel
+  induction fuel with
+  | zero => intro c tr h; exact h
+  | succ fuel ih =>
+    intro c tr h
+    rw [unwindErr]
+    split
+    · exact h
+    · next idx _ =>
+      simp only
+      have h1 := inv_recoverAt true 0 (Ctx.inv_dropFrames idx (Ctx.inv_pushV tr h))
+      split
+      · next c2 heq => rw [heq] at h1; exact ih _ _ (Ctx.inv_popClear h1)
+      · next c2 _ _ heq => rw [heq] at h1; exact h1
+
 theorem inv_afterInstr {m : M} (h : m.Inv) : (afterInstr m).1.Inv := by
   unfold afterInstr
   split
   · exact h
   · simp only
+    have hu := inv_unwindErr (m.ctx.frames.length + 1) m.ctx (.strace (.ref m.heap.length)) h
+    unfold finishErr
     split
-    · next idx _ =>
-      show Ctx.Inv _
-      exact inv_recoverAt _ _ (Ctx.inv_dropFrames _ (Ctx.inv_pushV _ h))
+    · exact hu
     · show Ctx.Inv _
       simp only [log_ctx]
-      exact h
+      exact hu
 
 theorem inv_fetchExec {m : M} (h : m.Inv) : (fetchExec m).1.Inv := by
   unfold fetchExec
